@@ -13,10 +13,13 @@ from props import PROPS
 TRUSTED_BASE = [
     'Lean 4.33.0 kernel (thorough tier: re-checked by leanchecker)',
     'axioms: at most propext, Classical.choice, Quot.sound (printed per theorem by #print axioms); no native_decide/bv_decide/sorry',
-    'translator tools/gen_lean.py (signature table, message/converter constants, literal command lists, _fix_range*, check_arity)',
+    'translator tools/gen_lean.py (signature table, message/converter constants, literal command lists, _fix_range*, check_arity, CommandItem / Database.expired '
+    'statement by statement, effect atoms per command) with tools/gen_locks.py (lock status of every shared access and call edge of the socket classes) and '
+    'tools/gen_purity.py (raises that can follow a change, per command body): conservative syntactic analyses of the Python AST',
     'correspondence harness /verif/harness (logical clock, recorded random picks, canonicalisation of set-ordered replies and DUMP payloads)',
     'hand-written executable Lean model FR.* of the command semantics: validated against the code by the correspondence, not verified',
-    'CPython (int/float/format/slicing/dict/set/re/pickle/sha1/random), sortedcontainers, redis-py: modelled, not verified',
+    'CPython (int/float parsing and formatting, slicing, dict/set, pickle, sha1, random), sortedcontainers, redis-py: modelled, not verified; re: assumed to implement '
+    'textbook regular-expression semantics on the fragment compile_pattern emits (the emitted text is compared, its meaning is proved)',
 ]
 ASSUMPTIONS = {
     'all': ['requests are syntactically valid RESP arrays of bulk strings', 'EXPIRE-family arguments within +-10^6 s of the logical clock '
